@@ -370,6 +370,90 @@ def h_xml_bounds(I, job):
     I.reach('end')
 
 
+def h_o5m_member_deltas(I, job):
+    """o5m ways and relations: way node references and relation member ids (one chain per member type) are running sums of symbolic zig-zag deltas that restart after a reset marker"""
+    import C06
+    from xmlenc import Reader
+    names = ['w%d' % k for k in range(4)] + ['m%d' % k for k in range(6)] + ['wid', 'rid']
+    z = {nm: I.named(nm, 7) for nm in names}
+    B = lambda nm: z3.ZeroExt(1, I.term(z[nm], 7))
+    d = {nm: unzigzag_term(I.term(v, 7)) for nm, v in z.items()}
+    def way(idb, refs): body = [idb, 0, len(refs)] + refs; return [0x11, len(body)] + body
+    def rel(idb, members):
+        ms = []
+        for (delta, code, role) in members: ms += [delta, 0, code] + list(role) + [0]
+        body = [idb, 0, len(ms)] + ms; return [0x12, len(body)] + body
+    reset = [0xff] if job['reset'] else []
+    f = list(C06.O5M_HDR) + way(B('wid'), [B('w0'), B('w1')]) + (reset if job['reset'] == 1 else []) + way(2, [B('w2'), B('w3')]) \
+        + rel(B('rid'), [(B('m0'), ord('0'), b'a'), (B('m1'), ord('1'), b''), (B('m2'), ord('2'), b'c')]) + (reset if job['reset'] == 2 else []) \
+        + rel(2, [(B('m3'), ord('2'), b'x'), (B('m4'), ord('0'), b''), (B('m5'), ord('1'), b'z')]) + [0xfe]
+    data = I.new_obj(len(f), 'file', 'heap')
+    for k, b in enumerate(f): I.store(data + k, i8, Sym(b, 8) if z3.is_expr(b) else b)
+    I.call('@verif_set_summary', [2])
+    out = I.new_obj(1024, 'out', 'heap'); ol = I.new_obj(4, 'ol', 'heap'); c = I.new_obj(4, 'cuts', 'heap')
+    rc = I.concretize(I.call('@verif_o5m_run', [data, len(f), c, 0, out, 1024, ol]), 'rc'); I.observe('rc', rc)
+    I.call('@verif_set_summary', [0])
+    if rc != 0: raise Finding('rejects-valid', 'spec-conformant o5m file rejected (rc=%d)' % rc)
+    n = I.concretize(I.load(ol, i32), 'n')
+    R = Reader(I, out, n)
+    r1 = job['reset'] == 1; r2 = job['reset'] == 2
+    def header(tcode, idv, what):
+        R.expect(tcode, 'type', what + ': type'); R.expect(idv, 'delta-id', what + ': id is not the running sum of the deltas')
+        R.expect(0, 'meta', what + ': version'); R.expect(1, 'meta', what + ': visible'); R.expect(0, 'meta', what + ': timestamp'); R.expect(0, 'meta', what + ': changeset'); R.expect(0, 'meta', what + ': uid'); R.string('', what + ' user')
+    wsum = [d['w0'], d['w0'] + d['w1']]
+    w2 = [(z3.BitVecVal(0, 64) if r1 else wsum[1]) + d['w2']]; w2.append(w2[0] + d['w3'])
+    wid2 = (z3.BitVecVal(0, 64) if r1 else d['wid']) + 1
+    for idv, refs, nm in ((d['wid'], wsum, 'way 1'), (wid2, w2, 'way 2')):
+        header(2, idv, nm); R.expect(2, 'refs', nm + ': number of node references')
+        for k, r in enumerate(refs):
+            R.expect(r, 'delta-ref', '%s: node reference %d is not the running sum of the deltas%s' % (nm, k, ' (restarting after the reset marker)' if r1 else ''))
+            R.expect(UNDEF32, 'refs', 'x'); R.expect(UNDEF32, 'refs', 'y')
+        R.expect(0, 'tags', nm + ': tags')
+    # relation ids continue the id chain of the ways (one chain for all object ids)
+    rid1 = wid2 + d['rid']; rid2 = (z3.BitVecVal(0, 64) if r2 else rid1) + 1
+    header(3, rid1, 'relation 1'); R.expect(3, 'members', 'relation 1: number of members')
+    for (tc, ref, role) in ((1, d['m0'], b'a'), (2, d['m1'], b''), (3, d['m2'], b'c')):
+        R.expect(tc, 'members', 'relation 1: member type'); R.expect(ref, 'delta-member', 'relation 1: member id is not the delta from 0 of its type'); R.string(role, 'relation 1 role')
+    R.expect(0, 'tags', 'relation 1: tags')
+    header(3, rid2, 'relation 2'); R.expect(3, 'members', 'relation 2: number of members')
+    zero = z3.BitVecVal(0, 64)
+    for (tc, base, dl, role) in ((3, d['m2'], d['m3'], b'x'), (1, d['m0'], d['m4'], b''), (2, d['m1'], d['m5'], b'z')):
+        R.expect(tc, 'members', 'relation 2: member type')
+        R.expect((zero if r2 else base) + dl, 'delta-member', 'relation 2: member id is not the running sum of the deltas of its member type%s' % (' (restarting after the reset marker)' if r2 else '')); R.string(role, 'relation 2 role')
+    R.expect(0, 'tags', 'relation 2: tags'); R.done()
+    I.reach('end')
+
+
+def h_o5m_anonymous(I, job):
+    """o5m author information: named user inline, reset marker, anonymous user inline (uid 0, no name), then the anonymous user by back-reference"""
+    import C06
+    from xmlenc import Reader
+    ub = [I.named('u%d' % k, 8) for k in range(2)]; uid = I.named('uid', 7)
+    for b in ub: I.assume(I.term(b, 8) != 0)
+    I.assume(I.term(uid, 7) != 0)
+    def node(idb, user): body = [idb, 1, 2, 2] + user + [2, 2]; return [0x10, len(body)] + body
+    named = [0, z3.ZeroExt(1, I.term(uid, 7)), 0] + [I.term(b, 8) for b in ub] + [0]
+    f = list(C06.O5M_HDR) + node(2, named) + ([0xff] if job['reset'] else []) + node(2, [0, 0, 0]) + node(2, [1]) + node(2, [2] if not job['reset'] else [1]) + [0xfe]
+    data = I.new_obj(len(f), 'file', 'heap')
+    for k, b in enumerate(f): I.store(data + k, i8, Sym(b, 8) if z3.is_expr(b) else b)
+    I.call('@verif_set_summary', [2])
+    out = I.new_obj(1024, 'out', 'heap'); ol = I.new_obj(4, 'ol', 'heap'); c = I.new_obj(4, 'cuts', 'heap')
+    rc = I.concretize(I.call('@verif_o5m_run', [data, len(f), c, 0, out, 1024, ol]), 'rc'); I.observe('rc', rc)
+    I.call('@verif_set_summary', [0])
+    if rc != 0: raise Finding('rejects-valid', 'spec-conformant o5m file rejected (rc=%d)' % rc)
+    R = Reader(I, out, I.concretize(I.load(ol, i32), 'n'))
+    # expected users: node 1 named; node 2 anonymous (inline); node 3 anonymous (reference 1 = the anonymous entry); node 4: without reset reference 2 = the named entry, with reset reference 1 again
+    users = [(z3.ZeroExt(57, I.term(uid, 7)), ub), (0, []), (0, []), ((0, []) if job['reset'] else (z3.ZeroExt(57, I.term(uid, 7)), ub))]
+    for k, (u, name) in enumerate(users):
+        what = 'node %d' % (k + 1)
+        R.expect(1, 'type', what); R.word(); R.expect(1, 'meta', what + ': version'); R.expect(1, 'meta', what + ': visible'); R.word(); R.word()
+        R.expect(u, 'uid', what + ': uid differs from the (referenced) uid / user pair')
+        R.string(name, what + ' user name')
+        R.word(); R.word(); R.expect(0, 'tags', what + ': tags')
+    R.done()
+    I.reach('end')
+
+
 def gen28(names):
     def g(rnd):
         return [{n: rnd.choice([0, 1, 2, 3, (1 << 28) - 1, rnd.getrandbits(28), rnd.getrandbits(10)]) for n in names} for _ in range(12)]
@@ -403,6 +487,12 @@ def harnesses(tier):
                 tests=[dict(_job=0, ev0=1, ev1=2, ev2=6, ev3=6, ch0=65, ch1=66, ch2=67)],
                 desc='XMLParser element callbacks on every schema-conformant event script inside <changeset> (one <discussion> with <comment>s, at most one <text> each, character data delivered in one or several pieces with symbolic bytes, <tag>s): the delivered changeset has exactly the script\'s tags and comments, each comment text being the concatenation of its character-data pieces',
                 bounds='event scripts of the listed lengths (<= %d) over 7 event kinds, 3 symbolic character bytes; expat itself (tokenising, entity decoding, attribute order) is not encoded' % (7 if tier == 'quick' else 9)),
+        Harness('o5m_member_deltas', 'chunk', h_o5m_member_deltas, jobs=[dict(reset=0), dict(reset=1), dict(reset=2)], setup=__import__('C06').setup_env,
+                desc='O5mParser on a file with two ways and two relations: way node references (one chain across ways) and relation member ids (one chain per member type node / way / relation) are running sums of symbolic zig-zag deltas, object ids form one chain, inline role strings; a reset marker between the ways or between the relations restarts every chain at 0',
+                bounds='2 ways x 2 references, 2 relations x 3 members (one per type), one-byte (7-bit) zig-zag deltas', testgen=lambda rnd: [dict(_job=rnd.randint(0, 2), **{nm: rnd.randint(0, 127) for nm in ['w%d' % k for k in range(4)] + ['m%d' % k for k in range(6)] + ['wid', 'rid']}) for _ in range(6)]),
+        Harness('o5m_anonymous_user', 'chunk', h_o5m_anonymous, jobs=[dict(reset=0), dict(reset=1)], setup=__import__('C06').setup_env,
+                desc='O5mParser author information: a named uid / user pair (symbolic uid and name bytes) inline, optionally a reset marker (the string table restarts but keeps its old bytes), the anonymous pair (uid 0, no name) inline, then back-references to the pairs: a referenced anonymous pair gives uid 0 and the empty user name, a referenced named pair gives its uid and name',
+                bounds='4 nodes, 2 symbolic name bytes, 7-bit uid', testgen=lambda rnd: [dict(_job=rnd.randint(0, 1), u0=rnd.randint(1, 255), u1=rnd.randint(1, 255), uid=rnd.randint(1, 127)) for _ in range(4)]),
         Harness('xml_objects', 'xml', h_xml_objects, mode='INT', setup=__import__('C03').setup_xml, wall=900,
                 jobs=[dict(kind='node'), dict(kind='way'), dict(kind='relation'), dict(kind='node', section='delete'), dict(kind='way', section='modify')] + ([] if tier == 'quick' else [dict(kind='relation', section='delete'), dict(kind='node', section='create'), dict(kind='relation', section='modify'), dict(kind='way', section='delete')]),
                 tests=[dict(_job=0, id0=49, id1=50, ver=51, uid0=52, uid1=53, cs0=54, cs1=55, negid=0, visible=1, latd=56, order=0)],
